@@ -7,10 +7,16 @@
                       SourceScope.resolve_nonlocals; supp/nast.py visit_Global / visit_Nonlocal
 
    Names are interned to N by the harness. A scope tree node carries what the compiler's first pass
-   (the symtable_visit functions) collects for a block: its kind, the names it binds (DEF_BOUND: assignments,
-   parameters, imports, def/class names, for/with/except targets, walrus targets, comprehension
-   targets - comprehensions are counted in the block they are written in, which is what CPython 3.12
-   does when it inlines them and what supp does), and its `global` / `nonlocal` declarations.
+   (the symtable_visit functions) collects for a block: its kind, the names it binds (DEF_BOUND:
+   assignments, parameters, imports, def/class names, for/with/except targets, walrus targets - a walrus
+   inside a comprehension binds in the block the comprehension is written in), and its `global` /
+   `nonlocal` declarations. Comprehension iteration variables are NOT among the bound names of the
+   block: they are local to the comprehension, for CPython and (since fix F53: Flow.add_name(...,
+   comprehension=True) keeps them in the comprehension's flow, out of scope.locals and out of the
+   global/nonlocal routing) for supp. The expressions of a comprehension are read in the block the
+   comprehension is written in (CPython 3.12 inlines list/set/dict comprehensions, supp keeps all
+   comprehension flows in the enclosing scope); reads of a name that is a comprehension variable of a
+   block on their chain are outside the compared domain (harness: comp_tainted).
 
    A scope of the tree is addressed by its path (child indices from the module). Ownership of a name
    read in a scope depends only on the chain of blocks from the module down to that scope, so both
@@ -33,7 +39,7 @@ Definition is_class (k : kind) : bool := match k with KClass => true | _ => fals
 
 Record frame := Frame {
   fkind : kind;
-  fbound : list name;       (* names bound somewhere in the block (DEF_BOUND) *)
+  fbound : list name;       (* names bound somewhere in the block (DEF_BOUND), comprehension variables excluded *)
   fglobal : list name;      (* `global` declarations of the block (DEF_GLOBAL) *)
   fnonlocal : list name     (* `nonlocal` declarations of the block (DEF_NONLOCAL) *)
 }.
